@@ -226,7 +226,7 @@ def replay(rec, typ, cls):
                     if not same(got, exp[i]):
                         found.append((f'{prefix}{fam}-by-label-differs', {'name': name, 'label': repr(typ.label(lid, "obj")), 'got': repr(got)}))
                         break
-    for lst in ('index', 'names', '_attributes'):
+    for lst in ('index', 'names', '_attributes', 'endogenous', 'check'):
         if lst in rd and rd[lst] is o.__dict__[lst]:
             found.append((f'{prefix}{fam}-shares-list:{lst}', {}))
     # attributes, lags / leads, strict
